@@ -1,0 +1,40 @@
+//go:build verif
+
+// Thin accessors for the verification harness in /verif (property C17). Compiled only with
+// `-tags verif`; not part of the product build.
+
+package bandwidthlimiter
+
+import (
+	"time"
+
+	"go.amzn.com/lambda/metering"
+)
+
+func (b *Bucket) VerifProduceTokens()             { b.produceTokens() }
+func (b *Bucket) VerifConsumeTokens(n int64) bool { return b.consumeTokens(n) }
+func (b *Bucket) VerifTokenCount() int64          { return b.getTokenCount() }
+
+func (b *Bucket) VerifParams() (capacity, refillNumber int64, refillInterval time.Duration) {
+	return b.capacity, b.refillNumber, b.refillInterval
+}
+
+func (w *BandwidthLimitingWriter) VerifBucket() *Bucket { return w.th.b }
+
+// VerifManualTicks marks the throttler as started WITHOUT launching its ticker goroutine and
+// returns a function that performs the body of one ticker iteration (produce tokens, then a
+// non-blocking notification of a waiting writer), so that the harness is the tick source.
+// A helper goroutine takes the value `stop()` sends on `done`.
+func (w *BandwidthLimitingWriter) VerifManualTicks() (tick func()) {
+	th := w.th
+	th.running = true
+	th.metrics.StartReadingResponseMonoTimeMs = metering.Monotime()
+	go func() { <-th.done }()
+	return func() {
+		th.b.produceTokens()
+		select {
+		case th.produced <- metering.Monotime():
+		default:
+		}
+	}
+}
